@@ -12,6 +12,7 @@
 -/
 import YalafiVerif.Proofs.Scanner
 import YalafiVerif.Generated.Tables
+import YalafiVerif.Proofs.Plain
 namespace Yalafi
 
 theorem C06_longest_match (T : Tables) (h : T.WFScan) (rest : Str) (t : Str)
@@ -44,5 +45,34 @@ theorem C06_tables_documented :
     T.specialVal "\\}".toList = some ['}'] ∧ T.specialVal "\\\\".toList = some [' '] ∧
     T.specialVal "&".toList = some [' '] := by
   decide
+
+/-- **plain prose is a fixed point**, end to end on the filter model: if every character of the
+    source is inert — white space, or a character that has no syntactic role (`% # \ $ { }`),
+    starts no special sequence of the table and is no active character of the language settings
+    (`inertChar`) — then, for default options (no `--defs`, `--extr`, `--repl`, `--unkn`) and
+    enough fuel (two more than the length), the filter returns the source itself and the i-th
+    output character maps to source position i; there are no unknowns and no new diagnostics.
+    `hinit`: the parser was initialised (`Parser.__init__`) with result state `st1`. -/
+theorem C06_plain_fixed_point (T : PTables) (o : Options) (fs : FS) (thresh : Nat) (src : Str) (fuel : Nat)
+    (st1 : PState) (hdefs : o.defs = []) (hextr : o.extr = []) (hrepl : o.hasRepl = false)
+    (hunkn : o.unkn = false)
+    (hinit : initParser T fuel o (initialState T o false fs) = .ok ((), st1))
+    (h : ∀ c ∈ src, inertChar T st1 c = true) (hf : src.length + 2 ≤ fuel) :
+    ∃ r, tex2txt T fuel src o false thresh fs = .ok r ∧ r.txt = src ∧
+      r.pos = (List.range src.length).map (· + 1) ∧ r.unknowns = [] ∧ r.diags = st1.diags :=
+  tex2txt_plain T o fs thresh src fuel st1 hdefs hextr hrepl hunkn hinit h hf
+
+/-- the same for the weaker, position-dependent condition `inertText` (a lone `-`, `'` or a `"`
+    that completes no short macro are admitted), with the complete result -/
+theorem C06_plain_fixed_point_text (T : PTables) (o : Options) (fs : FS) (thresh : Nat) (src : Str) (fuel : Nat)
+    (st1 : PState) (hdefs : o.defs = []) (hextr : o.extr = []) (hrepl : o.hasRepl = false)
+    (hunkn : o.unkn = false)
+    (hinit : initParser T fuel o (initialState T o false fs) = .ok ((), st1))
+    (h : inertText T st1 src = true) (hf : src.length + 2 ≤ fuel) :
+    tex2txt T fuel src o false thresh fs
+      = .ok { toks := (scan T.toTables src).toks, txt := src,
+              pos := (List.range src.length).map (· + 1), parts := [], unknowns := [],
+              diags := st1.diags, foreign := false } :=
+  tex2txt_plain_text T o fs thresh src fuel st1 hdefs hextr hrepl hunkn hinit h hf
 
 end Yalafi
